@@ -328,7 +328,10 @@ where
 
     fn run(&self, env: &Env) -> PartReport {
         let t0 = Instant::now();
-        let total = env.tier.pick(self.cases.0, self.cases.1);
+        // VERIF_SCALE (percent, default 100) scales the case budget of generated parts; used only by the
+        // sensitivity tooling for a cheaper first pass, never by the registered commands
+        let scale: u64 = std::env::var("VERIF_SCALE").ok().and_then(|s| s.parse().ok()).unwrap_or(100);
+        let total = (env.tier.pick(self.cases.0, self.cases.1) * scale / 100).max(16);
         let shards = env.threads.max(1) as u64;
         let per = (total + shards - 1) / shards;
         let stop = AtomicBool::new(false);
